@@ -2,7 +2,7 @@
 import ast
 from fractions import Fraction
 
-from ..model import (AnalysisError, dotted, norm_text, names_read, const_value,
+from ..model import (AnalysisError, expand_aug, dotted, norm_text, names_read, const_value,
                      is_none)
 from ..cfg import structural_guards
 from ..rules import shiftpoly
@@ -65,6 +65,7 @@ def run(prog, res):
 def _defs(fn):
   d = {}
   for st in ast.walk(fn.node):
+    st = expand_aug(st)
     if isinstance(st, ast.Assign) and isinstance(st.targets[0], ast.Name):
       d.setdefault(st.targets[0].id, []).append(st)
   return d
